@@ -14,6 +14,8 @@
 # value as hash seed / start offset, so iteration order is a pure function of
 # the map's history and of the value); pdsim sets it from the tape at the start
 # of each run and changes it between the repeated evaluations of C17.
+# cheaprand() (the order in which select polls ready cases, scheduler
+# tie-breaks) is pinned to the same value.
 set -e
 out=${1:-/dev/shm/pdsim-detmap}
 goroot=$(go1.26.8 env GOROOT)
@@ -31,6 +33,13 @@ awk '
   next
 }
 /^\/\/go:linkname maps_rand internal\/runtime\/maps.rand$/ { next }
+/^func cheaprand\(\) uint32 \{$/ {
+  print $0
+  print "\tif s := verifMapsRandState; s != 0 {"
+  print "\t\treturn uint32(s >> 20)"
+  print "\t}"
+  next
+}
 { print }
 ' "$goroot/src/runtime/rand.go" > "$out/rand.go"
 printf '{"Replace": {"%s": "%s"}}\n' "$goroot/src/runtime/rand.go" "$out/rand.go" > "$out/overlay.json"
